@@ -106,6 +106,9 @@ fn same(a: &Res<(Vec<usize>, Vec<u64>)>, b: &Res<(Vec<usize>, Vec<u64>)>) -> boo
 }
 
 struct Explored {
+    /// the workload ran without a single scheduling point (e.g. the code under test chose not to use
+    /// its worker pool): there is nothing to interleave, the one execution was compared as usual
+    no_concurrency: bool,
     schedules: u64,
     steps: u64,
     failed: Option<String>,
@@ -116,6 +119,7 @@ struct Explored {
 fn explore(case: &Case, persist_dir: &std::path::Path, replay: Option<&str>) -> Explored {
     let Some(bytes) = encode(case) else {
         return Explored {
+            no_concurrency: false,
             schedules: 0,
             steps: 0,
             failed: None,
@@ -154,6 +158,11 @@ fn explore(case: &Case, persist_dir: &std::path::Path, replay: Option<&str>) -> 
             let mut config = shuttle::Config::new();
             config.failure_persistence = shuttle::FailurePersistence::File(Some(persist_dir.to_path_buf()));
             config.max_steps = shuttle::MaxSteps::FailAfter(2_000_000);
+            // shuttle runs every task on a coroutine stack of 60 KiB by default; the whole create path
+            // (parser, inflate) runs on these, and a code change that moves work between the worker
+            // pool and the calling task must not overflow one (seen as a segfault of the harness with
+            // a behaviour-preserving refactoring that inflates small inputs on the calling thread)
+            config.stack_size = 8 << 20;
             if case.scheduler == "pct" {
                 let s = shuttle::scheduler::PctScheduler::new_from_seed(case.sched_seed, 3, case.iterations);
                 shuttle::Runner::new(s, config).run(body);
@@ -166,6 +175,7 @@ fn explore(case: &Case, persist_dir: &std::path::Path, replay: Option<&str>) -> 
     let schedules = count.load(Ordering::Relaxed);
     match result {
         Ok(()) => Explored {
+            no_concurrency: false,
             schedules,
             steps: 0,
             failed: None,
@@ -179,10 +189,21 @@ fn explore(case: &Case, persist_dir: &std::path::Path, replay: Option<&str>) -> 
             } else {
                 "panic under shuttle".to_string()
             };
+            if msg.contains("did not exercise any concurrency") {
+                // shuttle's own complaint, not a result mismatch (that would have panicked first)
+                return Explored {
+                    no_concurrency: true,
+                    schedules,
+                    steps: 0,
+                    failed: None,
+                    schedule_file: None,
+                };
+            }
             let after: Vec<PathBuf> = std::fs::read_dir(persist_dir)
                 .map(|rd| rd.flatten().map(|e| e.path()).filter(|p| !before.contains(p)).collect())
                 .unwrap_or_default();
             Explored {
+                no_concurrency: false,
                 schedules,
                 steps: 0,
                 failed: Some(msg),
@@ -276,6 +297,7 @@ fn main() {
             let mut results = results.into_inner().unwrap();
             results.sort_by_key(|r| r.0);
             let schedules: u64 = results.iter().map(|r| r.2.schedules).sum();
+            let no_conc = results.iter().filter(|r| r.2.no_concurrency).count();
             let mut violations = 0;
             let mut replays = vec![];
             for (idx, case, ex) in &results {
@@ -320,7 +342,7 @@ fn main() {
             }
             let wall = t0.elapsed().as_secs_f64();
             println!(
-                "property=C12 engine=shuttle cases={n} schedules_explored={schedules} wall_s={wall:.1} new_violations={violations}"
+                "property=C12 engine=shuttle cases={n} schedules_explored={schedules} workloads_without_concurrency={no_conc} wall_s={wall:.1} new_violations={violations}"
             );
             // merge into evidence/C12.json (written just before by simctl)
             let ev_dir = std::env::var("VERIF_EVIDENCE_DIR").map(PathBuf::from).unwrap_or_else(|_| root.join("evidence"));
@@ -336,6 +358,7 @@ fn main() {
                         "what_runs": "real sfs-core create path + real Runner over BGZF bytes with --threads 2..8; the noodles-bgzf worker pool is the vendored copy whose threads and channels are shuttle's",
                         "workloads": n,
                         "schedules_explored": schedules,
+                        "workloads_without_any_scheduling_point": no_conc,
                         "oracle": "result under every explored interleaving == result of the single-threaded reader",
                         "violations": violations,
                         "wall_s": wall,
